@@ -109,6 +109,8 @@ pub enum ScenarioEnd {
     Died(String),
     /// generous wall-clock watchdog (inconclusive, never a violation)
     Watchdog,
+    /// the child reported a defect of the harness itself (exit code 3): inconclusive
+    HarnessError(String),
 }
 
 /// Drives one child over indices `start, start+step, ...` (count of them); calls `on_end(idx, end)`
@@ -153,7 +155,11 @@ pub fn run_batch(
                 Ok(ChildEvent::Eof) => {
                     let status = sup.child.wait().ok();
                     if let Some((i, _)) = current {
-                        on_end(i, ScenarioEnd::Died(format!("child exited with {status:?} during the scenario")));
+                        if status.and_then(|s| s.code()) == Some(3) {
+                            on_end(i, ScenarioEnd::HarnessError("child exited with code 3 (HARNESS-ERROR) during the scenario".to_string()));
+                        } else {
+                            on_end(i, ScenarioEnd::Died(format!("child exited with {status:?} during the scenario")));
+                        }
                         next = i + step;
                     } else {
                         finished = true;
